@@ -1,5 +1,6 @@
 //! Correspondence harness: runs the litep2p implementation on generated / stored cases and
 //! prints one canonical trace per case in the "list of N" wire format of coq/common/Wire.v.
+mod c14;
 mod c17;
 mod util;
 
@@ -12,6 +13,7 @@ fn main() {
     let args = util::Args::parse(&argv[2..]);
     util::silence_panics();
     match argv[1].as_str() {
+        "c14" => c14::main(&args),
         "c17" => c17::main(&args),
         other => {
             eprintln!("unknown property {other}");
